@@ -1,4 +1,5 @@
 import numpy as np
+from pb_bss import _verif
 import itertools
 
 __all__ = [
@@ -199,6 +200,7 @@ class DHTVPermutationAlignment(_PermutationAlignment):
         K, T = prototype.shape
         assert K < 10, (K, 'Sure?')
         c_matrix = self.get_score_matrix(mask, prototype)
+        if _verif.enabled: _verif.emit('dhtv_score', score=np.array(c_matrix))
         return _mapping_from_score_matrix(c_matrix, algorithm=self.algorithm)
 
     @property
@@ -312,6 +314,7 @@ class DHTVPermutationAlignment(_PermutationAlignment):
             features = mask.copy()
 
         mapping = np.repeat(np.arange(K)[:, None], F, axis=1)
+        if _verif.enabled: _verif.emit('dhtv_start', aligner=self, features=features.copy(), plan=self.alignment_plan)
 
         if plot:
             from paderbox import visualization as vis
@@ -340,18 +343,22 @@ class DHTVPermutationAlignment(_PermutationAlignment):
                     )
 
                 nothing_changed = True
+                if _verif.enabled: _verif.emit('dhtv_iter', start=start, end=end, iteration=iteration, centroid=time_centroid)
                 for f in range(start, end):
                     reverse_permutation = self._align_segment(
                         features[:, f, :], time_centroid,
                     )
+                    if _verif.enabled: _verif.emit('dhtv_bin', f=f, reverse_permutation=np.array(reverse_permutation))
                     if not (reverse_permutation == list(range(K))).all():
                         nothing_changed = False
                         features[:, f, :] = features[reverse_permutation, f, :]
                         mapping[:, f] = mapping[reverse_permutation, f]
 
+                if _verif.enabled: _verif.emit('dhtv_iter_end', nothing_changed=nothing_changed)
                 if nothing_changed:
                     break
 
+        if _verif.enabled: _verif.emit('dhtv_end', mapping=mapping.copy(), features=features.copy())
         return mapping
 
 
